@@ -12,9 +12,15 @@ def programs(rng, n):
     fixed = C05.CTX_PROGS + ['$sort(nums)', 'list^(>v).s', 'list{s: v}', '$map(nums, function($x){$x * n})', '( $f := function($k){$k <= 0 ? 0 : $k + $f($k - 1)}; $f(n) )',
                              '$replace(a, /[0-9]+/, function($m){$m.match & "!"})', '$match(a, /g(\\d+)/).groups', '$string(nums) & a', 'nums ~> $sum() ~> $string()', '$pad(?, n * 3)(a)',
                              '$ ~> |list|{"v": v + 1}|', '$formatNumber(n * 1000.5, "#,##0.00")', '$fromMillis(n * 86400000)', 'list.s.$uppercase()', '$join(list.s, a)', 'a.((n > 2 ? $uppercase : $lowercase)())', 'list.s.((n > 2 ? $substringAfter : $substringBefore)("-"))', 'a.(($exists(b) ? $length : $string)())',
+                             # array built-ins on arrays of the (possibly shared) input, with differing second arguments
+                             '$append(nums, [1])', '$append(nums, [2, 3])', '$append(nums, n)', '$append(list, {"x": n})', '$append(nums, nums)', '$append(list.s, a)', '$reverse(nums)', '$sort(nums, function($l, $r){$l < $r})',
+                             '$zip(nums, list.v)', '$distinct($append(nums, nums))', '$append($append(nums, 7), 8)', '$reduce(nums, $append)', '$map(list, function($o){$append($o.s, n)})', 'nums[[0, -1]]', '[nums, nums]',
+                             # one instant per evaluation
+                             '($t0 := $millis(); $w := $sum($map([1..300], function($i){$i * 2})); $t1 := $millis(); $t0 = $t1)', '($n0 := $now(); $w := $join($map([1..200], $string)); $n0 = $now())',
+                             '[$millis() = $millis(), $now() = $now(), $toMillis($now()) = $millis()]',
                              '( $fs := [$uppercase, $lowercase]; a.($fs[0]()) & a.($fs[1]()) )', '{"f": $substringBefore}.f(a, "-")', 'a.(($substringBefore)("-"))']
     for e in fixed:
-        if any(t in e for t in ('$now', '$millis', '$keys', '$each', '$spread', '$sift', '*')):
+        if any(t in e for t in ('$keys', '$each', '$spread', '$sift', '*')) or (('$now' in e or '$millis' in e) and '= $' not in e and '$t0 = $t1' not in e):
             continue
         out.append({'expr': e, 'inputs': [doc(i) for i in range(5)]})
     for i in range(n):
@@ -27,7 +33,7 @@ def programs(rng, n):
 
 def run(tier, seed, replay=None):
     ck = Check('C06', tier, seed, '', 'goroutines 2..32 looping over context-defaulting built-ins, chains, partials, lambdas, transforms, regexes, sorts and generated programs with goroutine-specific '
-               'inputs whose correct results differ; configurations: one Expr shared by all goroutines, per-goroutine Expr, Compile + package-level Register* in parallel; every outcome compared '
+               'inputs whose correct results differ; configurations: one Expr shared by all goroutines (with per-goroutine copies of the input, and with ONE decoded document shared by all goroutines and programs), per-goroutine Expr, Compile + package-level Register* in parallel; every outcome compared '
                'with the sequentially computed one; runtime race-detector reports counted; distinct = distinct (program, input); non-trivial = program compiles')
     if not ck.build(['C06']):
         return ck.finish()
@@ -43,7 +49,7 @@ def run(tier, seed, replay=None):
     budget = 20 if tier == 'quick' else 600
     t0 = time.time()
     total = 0; races = 0; runs = []
-    confs = [(m, g) for m in ('shared', 'own', 'mixed') for g in ((2, 8, 32) if tier == 'quick' else (2, 4, 8, 16, 32))]
+    confs = [(m, g) for m in ('shared', 'sharedinput', 'own', 'mixed') for g in ((2, 8, 32) if tier == 'quick' else (2, 4, 8, 16, 32))]
     for mode, gor in confs:
         if time.time() - t0 > budget:
             break
